@@ -1,4 +1,5 @@
 import ChiDriver.C04
+import ChiDriver.C01
 namespace ChiDriver
-def allOps : List (String × Op) := C04.ops
+def allOps : List (String × Op) := C04.ops ++ C01.ops
 end ChiDriver
